@@ -277,3 +277,69 @@ fn norm_key_ops(ty: Ty, it: &Item) -> Item {
         (_, x) => x.clone(),
     }
 }
+
+/// C07 oracle on one accepted input.  Returns Err(description) when the input is not a one-step
+/// fixed point or loses information.
+pub fn fixed_point(ty: Ty, b: &[u8], tagged: bool) -> Result<Option<Vec<u8>>, (String, String)> {
+    let dec = |x: &[u8]| if tagged { capi::from_tagged_slice(ty, x) } else { capi::from_slice(ty, x) };
+    let enc = |v: CVal| if tagged { capi::to_tagged_vec(v) } else { capi::to_vec(v) };
+    let v = match dec(b) {
+        Ok(v) => v,
+        Err(EK::Panic(s)) => return Err(("panic-in-decode".into(), format!("decoding panicked at {}", s))),
+        Err(_) => return Ok(None),
+    };
+    let b1 = match enc(v.clone()) {
+        Ok(x) => x,
+        Err(k) => return Err(("reencode-failed".into(), format!("an accepted input decodes to a value that cannot be encoded ({})", k.name()))),
+    };
+    let v1 = match dec(&b1) {
+        Ok(x) => x,
+        Err(k) => return Err(("reencoding-rejected".into(), format!("the re-encoding {} is rejected with {}", hex(&b1), k.name()))),
+    };
+    let mut n = Notes(vec![]);
+    let (m, m1) = (capi::view(&v, &mut n), capi::view(&v1, &mut n));
+    if m != m1 {
+        let d = match (&m, &m1) {
+            (Some(a), Some(b)) => diff_summary(b, a),
+            _ => "view failed".into(),
+        };
+        return Err(("value-changed".into(), format!("decode(encode(decode(b))) differs from decode(b): {} (b' = {})", d, hex(&b1))));
+    }
+    let b2 = match enc(v1) {
+        Ok(x) => x,
+        Err(k) => return Err(("second-encode-failed".into(), format!("second encoding failed with {}", k.name()))),
+    };
+    if b2 != b1 {
+        return Err(("not-idempotent".into(), format!("encoding is not a fixed point after one step: b' = {} b'' = {}", hex(&b1), hex(&b2))));
+    }
+    Ok(Some(b1))
+}
+
+/// `fixed_point` plus known-finding attribution (P4): a failing input in which neutralising every
+/// "tag 2/3 over an indefinite-length byte string" makes the oracle pass is given the known
+/// signature; everything else keeps its own.
+pub fn fixed_point_check(ctx: &mut Ctx, ty: Ty, b: &[u8], tagged: bool) -> bool {
+    ctx.eval();
+    match fixed_point(ty, b, tagged) {
+        Ok(None) => false,
+        Ok(Some(b1)) => {
+            ctx.count("accepted");
+            if b1 != b {
+                ctx.nontrivial_bytes(b);
+                ctx.count("accepted-noncanonical");
+                ctx.sample(|| J::obj(vec![("type", J::Str(ty.name())), ("input", J::Str(hex(b))), ("reencoded", J::Str(hex(&b1))), ("outcome", J::s("fixed point after one step, value preserved"))]));
+            }
+            true
+        }
+        Err((class, detail)) => {
+            let mut sig = format!("{}/{}/{}", ctx.prop, class, ty.name());
+            if let Some((nb, true)) = crate::rcbor::neutralise_bignum_indefinite(b) {
+                if let Ok(Some(_)) = fixed_point(ty, &nb, tagged) {
+                    sig = "C07/tag2or3-over-indefinite-bstr-in-uninterpreted-value".to_string();
+                }
+            }
+            ctx.violation(&sig, detail, witness(ty, b, vec![("tagged", J::Bool(tagged))]));
+            true
+        }
+    }
+}
